@@ -419,6 +419,15 @@ def write_replay(prop, n, v):
     return p
 
 
+def api_probe():
+    """C12 supplement: every public method taking index vectors / raw values / arbitrary handles, called with boundary arguments"""
+    r = sh([VH, "probe"], timeout=1200, check=False)
+    try:
+        return json.loads(r.stdout.strip().splitlines()[-1])
+    except Exception:
+        return {"calls": 0, "panics": [{"fn": "vh probe", "arg": "", "panic": "the probe process ended with status %s" % r.returncode}]}
+
+
 def check_e1(prop, tier):
     t0 = time.time()
     res = e1_run(tier)
@@ -443,6 +452,20 @@ def check_e1(prop, tier):
             log("   predicate %s fails at op %s %s" % (v["pred"], v["op"], json.dumps(v.get("a"))[:200]))
     if viol > 25:
         log("   ... and %d more violating steps (not listed)" % (viol - 25))
+    probe = None
+    if prop == "C12":
+        probe = api_probe()
+        fns = {}
+        for p in probe["panics"]:
+            fns.setdefault(p["fn"], p)
+        for fn, p in sorted(fns.items()):
+            viol += 1
+            d = os.path.join(WORK, "replays")
+            os.makedirs(d, exist_ok=True)
+            path = os.path.join(d, "C12-probe-%d.json" % viol)
+            json.dump({"property": "C12", "engine": "probe", "fn": fn, "arg": p["arg"], "panic": p["panic"]}, open(path, "w"))
+            print("VIOLATION property=C12 replay=%s" % path)
+            log("   %s(%s) panics: %s" % (fn, p["arg"], p["panic"][:120]))
     for fid, f in known.items():
         print("KNOWN-FINDING: property=%s %s" % (prop, f["what"]))
     if res["drift"]:
@@ -454,7 +477,8 @@ def check_e1(prop, tier):
                        "full_observation_steps_evaluated_by_tlc": res["validated_steps"], "drift_steps": res["drift"],
                        "per_operation_replayed": res["ops"], "driver_histories": res.get("driver_histories", 0), "driver_steps": res.get("driver_steps", 0),
                        "driver_ops_tried_ok": res.get("driver_ops_tried_ok", {}), "unmodelled_steps": res["unmodelled"], "design_findings": res["design_findings"],
-                       "known_findings_hit": sorted(known.keys()), "scenarios": res["scenarios"]},
+                       "known_findings_hit": sorted(known.keys()), "scenarios": res["scenarios"],
+                       "api_probe_calls": (probe or {}).get("calls", 0)},
           "assumptions": ["TLC, CommunityModules Json reader", "harness projection (harness/src/core.rs)", "kind <-> ElementName concretisation"],
           "wall_s": round(time.time() - t0, 2), "violations": viol}
     os.makedirs(EVID, exist_ok=True)
